@@ -13,7 +13,7 @@ import numpy as np
 from hypothesis import strategies as st
 
 from vf import grids, tables
-from vf.core import lib
+from vf.core import Inadmissible, lib
 
 
 @st.composite
@@ -24,7 +24,7 @@ def sim_case(
     classes=("single", "single", "single", "ideal"),
     table_nmax=120,
     with_library=True,
-    time_kinds=("uniform", "quadratic", "geometric", "random", "big", "repeat"),
+    time_kinds=("uniform", "quadratic", "geometric", "random", "big", "repeat", "intdays"),
     schedules=True,
     families=("power", "power1", "kinked", "realgas"),
 ):
@@ -55,13 +55,11 @@ def sim_case(
         return case
     case["table"] = draw(tables.table_spec(table_nmax, with_library, families))
     case["container"] = draw(st.sampled_from(["dict", "dataframe"]))
+    # one table in eight is handed over with its rows from high to low pressure (the wrapper's interpolators sort)
+    case["rows"] = "descending" if draw(st.integers(0, 7)) == 0 else "ascending"
     case["pair"] = draw(tables.pressure_pair())
     case["schedule"] = draw(grids.schedule_spec()) if schedules else {"kind": "none"}
     return case
-
-
-class Inadmissible(Exception):
-    """The generated configuration is outside the property's domain (counted as a discarded case)."""
 
 
 @dataclass
@@ -101,6 +99,13 @@ def build_fluid(case):
 
     tab = tables.build(case["table"])
     p_f, p_i = tables.resolve_pair(tab, case["pair"])
+    if case.get("rows") == "descending":
+        given = {c: v[::-1].copy() for c, v in tab.items()}
+        try:
+            fluid = FlowProperties(tables.as_container(given, case["container"]), p_i)
+        except Exception as e:  # noqa: BLE001 - a wrapper may legitimately insist on increasing pressure
+            raise Inadmissible(f"table with descending rows rejected by the wrapper ({type(e).__name__})") from e
+        return tab, fluid, p_f, p_i
     fluid = lib("FlowProperties", FlowProperties, tables.as_container(tab, case["container"]), p_i)
     return tab, fluid, p_f, p_i
 
@@ -178,6 +183,7 @@ def labels(case, r: Run | None = None):
         t = case["table"]
         out["table"] = t["family"] + (":" + t["name"] if t["family"] == "shipped" else (":k=1" if tables.constant_diffusivity(t) else ""))
         out["schedule"] = case["schedule"]["kind"]
+        out["rows"] = case.get("rows", "ascending")
     if r is not None:
         ratio = r.p_f / r.p_i
         out["pf_over_pi"] = "<0.5" if ratio < 0.5 else ("0.5-0.9" if ratio < 0.9 else ("0.9-0.99" if ratio < 0.99 else ("0.99-0.999" if ratio < 0.999 else ">0.999")))
